@@ -113,7 +113,7 @@ def read_stub(text, target_ns=None):
     return out
 
 
-def canon_of(t, stub, ns_extra=None):
+def canon_of(t, stub, ns_extra=None, opaque_td=False):
     """canonical form of an evaluated stub annotation; forward references resolve to the stub's TypedDict classes"""
     tdc = stub["tdclasses"]
 
@@ -143,7 +143,7 @@ def canon_of(t, stub, ns_extra=None):
         if isinstance(x, typing.ForwardRef):
             name = x.__forward_arg__
             if name in tdc:
-                return td_canon(name)
+                return ("TDREF", name) if opaque_td else td_canon(name)
             env = dict(ns_extra or {})
             env.update(stub["ns"])
             try:
